@@ -118,6 +118,8 @@ pub fn user_err(s: &str) -> UserErr {
     USER_ERR_LOG.with(|l| l.borrow_mut().push(s.to_string()));
     UserErr(s.to_string())
 }
+impl<'x> From<&'x str> for UserErr { fn from(s: &'x str) -> UserErr { user_err(s) } }
+pub fn user_err_generic<S: AsRef<str>>(s: S) -> UserErr { user_err(s.as_ref()) }
 /// a generic user error type (its parameter is the enum's own type parameter)
 #[derive(Debug, Clone, PartialEq)]
 pub struct GenErr<T>(pub String, pub core::marker::PhantomData<T>);
